@@ -421,6 +421,65 @@ func genIntruder(r *hx.Rng) []hx.Group {
 	return evs
 }
 
+// one client identifier with a persistent session: it subscribes, re-subscribes the same filters at other QoS,
+// unsubscribes, ends in every way and comes back (sometimes with CleanSession=1, sometimes after somebody else
+// used the identifier); after every resumption in-process publishes at QoS 2 probe every filter of the pool, so
+// that the granted QoS of what was restored shows in the deliveries
+func genSessions(r *hx.Rng) []hx.Group {
+	var evs []hx.Group
+	pool := []string{"s/a", "s/b", "s/+", "s/#", "t"}
+	names := []string{"s/a", "s/b", "t"}
+	id := 0
+	conn := func(clean bool) int {
+		id++
+		evs = append(evs, evConnect(id, true, mq.Connect(mq.ConnectOpts{ClientID: "dev", Clean: clean, KeepAlive: 60, Flags: -1})))
+		return id
+	}
+	probe := func() {
+		for _, t := range names {
+			evs = append(evs, hx.GB([]int64{8, 2, 0, int64(len(t))}, append([]byte(t), r.Bytes(1+r.Intn(3))...)))
+		}
+	}
+	d := conn(r.Chance(15))
+	pid := 1
+	for round, n := 0, 2+r.Intn(3); round < n; round++ {
+		for k, m := 0, 2+r.Intn(4); k < m; k++ {
+			pid++
+			switch r.Intn(5) {
+			case 0:
+				evs = append(evs, evBytes(d, mq.Unsubscribe(pid, []string{pool[r.Intn(len(pool))]})))
+			default:
+				nf := 1 + r.Intn(2)
+				var fs []string
+				var qs []int
+				for j := 0; j < nf; j++ {
+					fs, qs = append(fs, pool[r.Intn(len(pool))]), append(qs, r.Intn(3))
+				}
+				evs = append(evs, evBytes(d, mq.Subscribe(pid, fs, qs)))
+			}
+		}
+		if r.Chance(30) {
+			probe()
+		}
+		switch r.Intn(3) {
+		case 0:
+			evs = append(evs, evBytes(d, mq.Disconnect()))
+		case 1:
+			evs = append(evs, evBytes(d, []byte{0xf0, 0x00}))
+		default:
+			evs = append(evs, evDrop(d))
+		}
+		if r.Chance(15) {
+			// somebody uses the identifier with CleanSession=1 in between: the stored session is discarded
+			x := conn(true)
+			evs = append(evs, evBytes(x, mq.Disconnect()))
+		}
+		d = conn(r.Chance(15))
+		probe()
+	}
+	return evs
+}
+
 func genHistory(r *hx.Rng, focus string) []hx.Group {
 	switch k := r.Intn(100); {
 	case k < 18:
@@ -429,6 +488,8 @@ func genHistory(r *hx.Rng, focus string) []hx.Group {
 		return genWillSessions(r)
 	case k < 40:
 		return genIntruder(r)
+	case k < 50:
+		return genSessions(r)
 	}
 	g := &gen{r: r, inproc: map[int][]string{}}
 	n := 12 + r.Intn(40)
